@@ -35,6 +35,27 @@ Theorem C11_validated_implies_safe_partial : forall pf ns args f a,
 Proof. exact validated_implies_safe. Qed.
 Print Assumptions C11_validated_implies_safe_partial.
 
+(* (2') the error classification step of the apply loop (isUnrecoveryError => panic(err)), read from the
+   source into Consts: whatever client bytes an apply error of the node layer quotes (strconv errors,
+   the command name), the apply loop does not take it for an unrecoverable engine error *)
+Theorem C11_apply_error_never_unrecoverable : forall e rest, is_unrecovery (err_prefix e ++ rest) = false.
+Proof. exact error_never_unrecoverable. Qed.
+Print Assumptions C11_apply_error_never_unrecoverable.
+
+Theorem C11_accepted_apply_outcome : forall pf ns args f a,
+  proposed pf ns args f = Some a ->
+  apply_shape pf false a = AReach \/
+  exists e, apply_shape pf false a = AErr e /\ forall rest, is_unrecovery (err_prefix e ++ rest) = false.
+Proof. exact accepted_apply_outcome. Qed.
+Print Assumptions C11_accepted_apply_outcome.
+
+(* why the matcher has to be the prefix test: with a "contains" test the quoted argument decides *)
+Theorem C11_contains_matcher_refuted :
+  exists a, contains (lower (B "no space left on device"))
+                     (lower (err_prefix (EAtoi a) ++ 34 :: a ++ 34 :: B ": invalid syntax")) = true.
+Proof. exact contains_matcher_refuted. Qed.
+Print Assumptions C11_contains_matcher_refuted.
+
 (* the per-entry check the theorem rests on, stated on its own: every write entry of the table has a
    known wrapper whose accepted argument counts satisfy the needs of the apply handler of the same name *)
 Theorem C11_table_checked : forallb entry_ok reg_table = true.
@@ -107,7 +128,7 @@ Proof. vm_compute. reflexivity. Qed.
 Example C11_ex_reject :
   proposed no_float (B "vns") [B "set"; B "vns:t:k"] FNone = None /\
   apply_shape no_float false [B "set"; B "t:k"] = APanic /\
-  apply_shape no_float false [B "zadd"; B "t:z"; B "1"] = AErr.
+  apply_shape no_float false [B "zadd"; B "t:z"; B "1"] = AErr (EParseFloat (B "1")).
 Proof. vm_compute. repeat split. Qed.
 (* the table has write entries and none of them is unknown *)
 Example C11_ex_table :
